@@ -1,6 +1,7 @@
 package osutil
 
 import (
+	"errors"
 	"io"
 	"os"
 )
@@ -18,6 +19,16 @@ func CopyFile(srcPath, destPath string) (int64, error) {
 		return 0, err
 	}
 	defer src.Close()
+
+	// os.Create truncates: refuse to copy a file onto itself (same path, symlink or hard link),
+	// otherwise the source would be emptied before it is read.
+	srcInfo, err := src.Stat()
+	if err != nil {
+		return 0, err
+	}
+	if destInfo, err := os.Stat(destPath); err == nil && os.SameFile(srcInfo, destInfo) {
+		return 0, errors.New("osutil: '" + srcPath + "' and '" + destPath + "' are the same file")
+	}
 
 	dest, err := os.Create(destPath)
 	if err != nil {
